@@ -505,8 +505,8 @@ def run_case(contract, values, log=None):
                 olds[f'old_{n}'] = copy.deepcopy(v)
             except Exception:
                 olds[f'old_{n}'] = v
-        install_callee_contracts(contract, patches, log)
         target = real_callable(contract.target)
+        install_callee_contracts(contract, patches, log)
         names = contract.call if contract.call is not None else list(contract.inputs.keys())
         args = [values[n] for n in names]
         kwargs = {p: values[n] for p, n in contract.kwargs.items()}
@@ -632,7 +632,7 @@ def search(contract, clause_names, seed, budget, per_case=None):
         def source(name, kind, g=g, src_vals=src_vals):
             if isinstance(kind, K.Kind):
                 gen = getattr(contract, 'native_gens', {}).get(name)
-                v = gen(g) if gen else g.of(kind, hint='name' if 'name' in name else None)
+                v = gen(g, src_vals) if gen else g.of(kind, hint='name' if 'name' in name else None)
                 src_vals[name] = v
                 return v
             raise ValueError(f'search cannot generate {kind!r}')
